@@ -13,6 +13,7 @@
      cert_info parseCertificate,  enc_name  keystore.Entry.EncryptionAlgorithm().Name
    The harness records their answers per case. *)
 From WI Require Import Lib.Base Lib.Info Lib.Strings Lib.Time.
+From WI Require Model.Base64 Model.Pem.
 Open Scope N_scope.
 
 (* ------------------------------------------------------------------ *)
@@ -200,6 +201,44 @@ Section PemFile.
     | Panic e => Panic e
     end.
 End PemFile.
+
+(* encoding/pem.Decode as modelled byte for byte in Model/Pem.v (C05): the instance of [dec] the
+   bundle theorems of Props/C06.v are stated for; the correspondence check compares it with the real
+   decoder at every "-----BEGIN " of every case *)
+Definition pem_dec (rest : bytes) : option (pblock * bytes) :=
+  match Pem.pem_decode rest with
+  | Some (t, b, r) => Some (mkpblock t b, r)
+  | None => None
+  end.
+
+(* a block as it is written down (RFC 7468 / encoding/pem.Encode, with the freedom other writers take):
+   label, header lines ("Proc-Type: 4,ENCRYPTED", ...; followed by an empty line when there are any),
+   the base64 text of the body broken after every ab_wrap characters (0: one line), LF or CRLF line
+   endings, and whether the END line is terminated (ab_fin = false: the file ends right after it) *)
+Record ablock := mkablock {
+  ab_label : bytes; ab_headers : list bytes; ab_body : bytes;
+  ab_wrap : nat; ab_crlf : bool; ab_fin : bool }.
+
+Definition pem_eol (crlf : bool) : bytes := if crlf then [13; 10] else [10].
+Definition pem_end : bytes := bs "-----END ".
+Definition pem_dashes : bytes := bs "-----".
+
+Definition armor_headers (crlf : bool) (hs : list bytes) : bytes :=
+  match hs with
+  | [] => []
+  | _ => concat (map (fun h => h ++ pem_eol crlf) hs) ++ pem_eol crlf
+  end.
+Definition armor_body (w : nat) (crlf : bool) (d : bytes) : bytes :=
+  match d with
+  | [] => []
+  | _ => Base64.wrap w crlf (Base64.encode Base64.Std d) ++ pem_eol crlf
+  end.
+Definition armor (b : ablock) : bytes :=
+  pem_begin ++ ab_label b ++ pem_dashes ++ pem_eol (ab_crlf b)
+  ++ armor_headers (ab_crlf b) (ab_headers b)
+  ++ armor_body (ab_wrap b) (ab_crlf b) (ab_body b)
+  ++ pem_end ++ ab_label b ++ pem_dashes ++ (if ab_fin b then pem_eol (ab_crlf b) else []).
+Definition ablock_block (b : ablock) : pblock := mkpblock (ab_label b) (ab_body b).
 
 (* ------------------------------------------------------------------ *)
 (* jks-go keystore/jks.go: the reader *)
